@@ -92,6 +92,16 @@ def c12(tier):
         "rejected_traces": len(failed),
     }
     coverage.update(unlink_cov)
+    coverage = ck.merge_blocks("c12_blocks", coverage, rule=(
+        " PLUS the design model WalrusBlocks with the reclamation bookkeeping (per-file locked/checkpointed/total/"
+        "fully-allocated counters, per-block checkpoint flags, flush_check; tiny geometry) checked by TLC to refine "
+        "WalrusAPI including Reclaim(stored) for every request the design raises (StrictlyAtOnce, and AtLeastOnce under the "
+        "named avoidance guard of the open finding; TLC is required to find that finding without the guard and to find a C12 "
+        "violation with the historical defect 'checkpoint counted on every report' switched on); the configurations make a "
+        "file fully allocated, consume it and raise requests (the request step must fire, -coverage 1); every history with a "
+        "request and a stratified selection of the others are replayed on the real engine (fd, mmap; block-by-block drain and "
+        "reopen+drain tails) with the reclaim events decided by the contract, and the engine's per-file counters before every "
+        "call and the requests after it (file ordinal + stored entries) are compared with the model's (MODEL-DRIFT, never a violation)."))
     return ck.finish("model_checking", coverage, PE.COMMON_ASSUMPTIONS + [
         "the reclaim_requested event is raised at the only place where the engine sends a file to the deletion channel",
         "quick tier does not wait for the real unlink (1000 background ticks); thorough does, at Milliseconds(1)"])
